@@ -142,6 +142,12 @@ func runC10(c *Ctx) {
 		c.Check("K1-pipelines-agree", key+"#parser-listener", attached["parser"] != nil && attached["parser"] != attached["lexer"], psr.Pos(), "a separate GengineErrorListener must be attached to the parser")
 		// walk with the listener over psr.Primary()
 		walked := false
+		var walkCall, primaryCall *ssa.Call
+		eachInstr(f, func(in ssa.Instruction) {
+			if pc, ok := in.(*ssa.Call); ok && calleeIs(pc, pParser, "gengineParser", "Primary") && primaryCall == nil {
+				primaryCall = pc
+			}
+		})
 		eachInstr(f, func(in ssa.Instruction) {
 			call, ok := in.(*ssa.Call)
 			if !ok || call.Call.StaticCallee() == nil || call.Call.StaticCallee().Name() != "Walk" {
@@ -159,6 +165,12 @@ func runC10(c *Ctx) {
 			}
 			if okL && okT {
 				walked = true
+				walkCall = call
+			}
+			for _, a := range call.Call.Args {
+				if pc, ok := x.Unwrap(a).(*ssa.Call); ok && calleeIs(pc, pParser, "gengineParser", "Primary") {
+					primaryCall = pc
+				}
 			}
 		})
 		c.Check("K1-pipelines-agree", key+"#walk", walked, psr.Pos(), "the tree of psr.Primary() must be walked with the GengineParserListener")
@@ -181,6 +193,7 @@ func runC10(c *Ctx) {
 				continue
 			}
 			ok := true
+			staleAny := false
 			var badPos = f.Pos()
 			nSucc := 0
 			eachInstr(f, func(in ssa.Instruction) {
@@ -200,19 +213,37 @@ func runC10(c *Ctx) {
 				}
 				nSucc++
 				known := false
+				stale := false
 				for _, g := range x.GuardsOf(r.Block()) {
 					if arg, ne, isLen := x.lenCmpO(g.Cond); isLen && ne != g.Pol {
 						if b, is := x.isFieldLoad(arg, ch.typ, ch.field); is && x.Origin(b) == ch.obj {
-							known = true
+							// the errors must be looked at after they can have been recorded: lexer and
+							// parser errors after the parse (Primary), listener errors after the walk
+							producer := primaryCall
+							if ch.name == "listener-errors-checked" {
+								producer = walkCall
+							}
+							if producer != nil && domInstr(producer, g.If) {
+								known = true
+							} else {
+								stale = true
+							}
 						}
 					}
 				}
 				if !known {
 					ok = false
 					badPos = r.Pos()
+					if stale {
+						staleAny = true
+					}
 				}
 			})
-			c.Check("K1-pipelines-agree", key+"#"+ch.name, ok && nSucc > 0, badPos, "a successful return must be dominated by `len(%s.%s) > 0 -> error`", ch.typ, ch.field)
+			why := ""
+			if staleAny {
+				why = " (the list is tested before the step that fills it has run)"
+			}
+			c.Check("K1-pipelines-agree", key+"#"+ch.name, ok && nSucc > 0, badPos, "a successful return must be dominated by `len(%s.%s) > 0 -> error`, tested after the errors can have been recorded%s", ch.typ, ch.field, why)
 			// the true edge of that test returns an error
 			eachInstr(f, func(in ssa.Instruction) {
 				iff, isIf := in.(*ssa.If)
